@@ -482,3 +482,80 @@ def field_completeness(report, rid, db, cg, P, M, fi):
                 report.ok(rid, '%s: %s complete in %d version(s)' % (
                     fi.qualname, ci.qualname, nv))
     return n
+
+
+# ---------------------------------------------------------------------------
+def received_length_exprs(fi, buf):
+    """Texts of expressions that denote "number of bytes of this frame
+    received so far": `len(<buf>.get_writable())`, and any counter local c
+    with the invariant  c == len(buffer contents):  every assignment to c is
+    `c = len(d)` / `c = 0` with the buffer empty or freshly sent d, or
+    `c += len(d)` in a block that also does `<buf>.send(d)` exactly once, and
+    every `<buf>.send(d)` inside a loop is matched by such an increment."""
+    ok = {'len(%s.get_writable())' % buf}
+    sends = []          # (block id, arg text)
+    assigns = {}        # name -> [(kind, arg text, block id)]
+
+    def visit(stmts, in_loop):
+        bid = id(stmts)
+        for st in stmts:
+            if isinstance(st, ast.Expr) and isinstance(st.value, ast.Call) \
+                    and ast.unparse(st.value.func) == '%s.send' % buf and \
+                    len(st.value.args) == 1:
+                sends.append((bid, ast.unparse(st.value.args[0]), in_loop))
+            elif isinstance(st, ast.Assign) and len(st.targets) == 1 and \
+                    isinstance(st.targets[0], ast.Name):
+                v = st.value
+                if isinstance(v, ast.Call) and ast.unparse(v.func) == 'len' \
+                        and len(v.args) == 1:
+                    assigns.setdefault(st.targets[0].id, []).append(
+                        ('set', ast.unparse(v.args[0]), bid, in_loop))
+                elif isinstance(v, ast.Constant) and v.value == 0:
+                    assigns.setdefault(st.targets[0].id, []).append(
+                        ('zero', None, bid, in_loop))
+                else:
+                    assigns.setdefault(st.targets[0].id, []).append(
+                        ('other', None, bid, in_loop))
+            elif isinstance(st, ast.AugAssign) and isinstance(
+                    st.target, ast.Name):
+                v = st.value
+                if isinstance(st.op, ast.Add) and isinstance(v, ast.Call) \
+                        and ast.unparse(v.func) == 'len' and len(v.args) == 1:
+                    assigns.setdefault(st.target.id, []).append(
+                        ('inc', ast.unparse(v.args[0]), bid, in_loop))
+                else:
+                    assigns.setdefault(st.target.id, []).append(
+                        ('other', None, bid, in_loop))
+            for fld in ('body', 'orelse', 'finalbody'):
+                sub = getattr(st, fld, None)
+                if isinstance(sub, list) and sub and isinstance(sub[0],
+                                                                ast.stmt):
+                    visit(sub, in_loop or isinstance(st, (ast.While,
+                                                          ast.For)))
+            if isinstance(st, ast.Try):
+                for h in st.handlers:
+                    visit(h.body, in_loop)
+    visit(fi.body, False)
+    for name, lst in assigns.items():
+        good = True
+        incs = [a for a in lst if a[0] == 'inc']
+        if any(a[0] == 'other' for a in lst) or not incs:
+            continue
+        for kind, arg, bid, in_loop in lst:
+            if kind == 'inc':
+                if sum(1 for b, a, _ in sends if b == bid and a == arg) != 1:
+                    good = False
+            elif kind == 'set':
+                if in_loop or sum(1 for b, a, _ in sends
+                                  if b == bid and a == arg) != 1:
+                    good = False
+            elif kind == 'zero' and in_loop:
+                good = False
+        # every send inside a loop is counted
+        for b, a, in_loop in sends:
+            if in_loop and not any(k == 'inc' and ar == a and bb == b
+                                   for k, ar, bb, _ in lst):
+                good = False
+        if good:
+            ok.add(name)
+    return ok
